@@ -8,6 +8,7 @@ scenario = {
   "tmraw": {"<node>": {"beta": [floats], "gamma": [floats]}}            raw values (property-based drivers)
   "props": {"C01": bool, "C04": bool, "C08": bool, "C09": bool},
   "costs": [{"name": str, "metric": str, "full": bool}],   (C04)
+  "train": {"steps", "lr", "strength", "task", "discrete", "seed"}   masks moved by a real optimizer instead of written
   "pre":   [call names executed after the masks are written and before anything is observed]
   "variant": "auto" | "manual" (autoconvert off, PIT layers placed by the user) | "types" (exclusion by type)
 }
@@ -125,7 +126,45 @@ def run(sc: Dict[str, Any]) -> Dict[str, Any]:
     # ---- the history: calls made before / after the masks are written (marker "set_masks"; default: first)
     tm_abs: Dict[int, Dict[str, List[int]]] = {}
 
+    def train_masks(cfg):
+        """Let a real optimizer move the masks: a few SGD steps on the architectural parameters with the loss
+        (task term on random data) + strength * cost, as a search does.  The values reached are whatever they are
+        (fractional, negative, crossing the threshold on some elements only)."""
+        gen2 = torch.Generator().manual_seed(int(cfg.get("seed", 0)))
+        pit.train()
+        pit.train_net_and_nas()
+        pit.discrete_cost = bool(cfg.get("discrete", False))
+        params = list(pit.nas_parameters())
+        if not params:
+            pit.eval()
+            return
+        opt = torch.optim.SGD(params, lr=float(cfg.get("lr", 0.2)))
+        for _ in range(int(cfg.get("steps", 5))):
+            xb = torch.rand(x.shape, generator=gen2) * 2 - 0.5
+            opt.zero_grad()
+            y = pit(xb)
+            c = pit.get_cost(costs[0]["name"]) if isinstance(cost_arg, dict) else pit.cost
+            loss = float(cfg.get("task", 0.01)) * (y ** 2).mean() + float(cfg.get("strength", 0.05)) * c
+            loss.backward()
+            snap = [p_.detach().clone() for p_ in params]
+            opt.step()
+            if not all(bool(torch.isfinite(p_).all()) for p_ in params):
+                # the optimizer diverged (inf / NaN): not "a real value of the parameters" - keep the last finite state
+                with torch.no_grad():
+                    for p_, s_ in zip(params, snap):
+                        p_.copy_(s_)
+                break
+        pit.eval()
+        pit.discrete_cost = True
+
     def write_masks():
+        if sc.get("train"):
+            try:
+                train_masks(sc["train"])
+            except Exception:      # e.g. a layer without masker (finding F19): observed as such below
+                pit.eval()
+                pit.discrete_cost = True
+            return
         for node, al in sc.get("alive", {}).items():
             i = int(node)
             try:
